@@ -335,10 +335,16 @@ class IncrementalInterpreter(Pytree):
             ]
             subfuns, params = _eqn.primitive.get_bind_params(_eqn.params)
             args = subfuns + induals
-            if stateful_handler and stateful_handler.handles(_eqn.primitive):
-                outduals = stateful_handler.dispatch(_eqn.primitive, *args, **params)
-            else:
-                outduals = default_propagation_rule(_eqn.primitive, *args, **params)
+            # Re-bind under the configuration context the equation was traced in.
+            with _eqn.ctx.manager:
+                if stateful_handler and stateful_handler.handles(_eqn.primitive):
+                    outduals = stateful_handler.dispatch(
+                        _eqn.primitive, *args, **params
+                    )
+                else:
+                    outduals = default_propagation_rule(
+                        _eqn.primitive, *args, **params
+                    )
             if not _eqn.primitive.multiple_results:
                 outduals = [outduals]
             jax_util.safe_map(dual_env.write, _eqn.outvars, outduals)
